@@ -51,7 +51,7 @@ PLAN["C06"]["harnesses"].append(H("H06_merge", quick={"skip": True}, thorough={"
 prop("C07", [
     H("K2_uvarint_rt"), H("K2_uvarint_agree"),
     # A: small lists, every variant (built / merged single-hit / reused objects / replaced actual bitmap), every flag combination
-    H("H07_seq", quick={"wall": "140s", "shards": 8, "param": "maxN=2,maxL=1,maxLocs=0,variants=5"}, thorough={"wall": "1500s", "shards": 16, "param": "maxN=3,maxL=2,maxLocs=1,variants=5"}),
+    H("H07_seq", quick={"wall": "140s", "shards": 8, "param": "maxN=2,maxL=1,maxLocs=0,variants=6"}, thorough={"wall": "1500s", "shards": 16, "param": "maxN=3,maxL=2,maxLocs=1,variants=6"}),
     # B: small lists with locations, all details, two calls
     H("H07_seq", quick={"wall": "140s", "shards": 3, "param": "maxN=2,maxL=2,maxLocs=1,variants=1,allFlags=1"}, thorough={"wall": "1500s", "shards": 16, "param": "maxN=4,maxL=3,maxLocs=1,variants=1,allFlags=1"}),
     # C: longer lists (more chunks), no exclusion, all details: every postings set
